@@ -10,6 +10,10 @@ CLAIMED = {
             "Theorems over the Gallina model of _factorize / get_possible_factor_sizes / _count_factorizations for every positive size and every pattern; "
             "the model is evaluated with vm_compute and diffed against the real functions on the full enumerated range, the property's right-hand side is checked directly on the code's output.",
             "Coq kernel; hand-written model + correspondence harness; float sqrt modelled by exact Z.sqrt_up; coarseness=1"),
+    "C11": ("Coq proof (impl_mask = spec_mask for every matrix, goal vector and monotone sort key; SFS invariant, 2-D sweep, grouping, dedup) + differential correspondence with rank-encoded matrices",
+            "C11_mask_exact proves the modelled algorithm (as repaired by two fix: commits) equal to the declarative non-dominated/first-duplicate mask for all inputs; "
+            "the real fast_pareto_mask and makepareto_numpy are diffed against the vm_compute-evaluated model and against an O(n^2) oracle on generated and exhaustive small matrices.",
+            "Coq kernel; float order abstracted by ranks; float32 sort key abstracted as any dominance-monotone key; *_per_prime_factor goals oracle-only; numba/numpy runtime"),
 }
 
 PENDING_REASON = "check not built yet in this round (planned, see DESIGN.md section 6); not claimed until its proof and correspondence exist"
